@@ -422,6 +422,7 @@ package kv
 //
 //@ func init
 //@ property C17
+//@ assume pebble.DefaultComparer != nil because "package-level comparer of the pebble library, set by its own initialiser, which runs first"
 //@ ensures firstNotificationKey == nbKey(0) && lastNotificationKey == nbKey(9223372036854775807)
 //@ modifies *
 
